@@ -3,7 +3,9 @@
    Go code mirrored (pkg/edition/java/lite, pkg/util/netutil):
      netutil.splitHostPort / Parse / HostPort         -> [parse_backend]
      forward.go findRoute, closure nextBackend:
-        the removal loop ("normalizedAddr == selectedAddr") -> [norm_impl], [impl_remove]
+        the removal loop (today, fix 426c657: drop every entry whose
+        canonicalBackendAddress equals the selected one's)  -> [impl_remove]
+        PRE-FIX loop ("normalizedAddr == selectedAddr", first match only) -> [old_norm], [old_remove]
      strategy.go canonicalBackendAddress              -> [canon]   (the code's own notion of
                                                          "the same backend": lower-cased host,
                                                          default port 25565)
@@ -13,7 +15,10 @@
                  ActiveConnections / RecordLatency    -> [track], [release], [active_total], ...
    [spec_remove] is what the property demands of the per-attempt loop: after a backend was
    selected, EVERY entry that names the same backend (equal [canon]) is dropped, so no backend is
-   dialled twice in one attempt and the attempt always terminates.
+   dialled twice in one attempt and the attempt always terminates.  Today's code does exactly
+   that ([impl_remove]); the pre-fix loop ([old_remove]) is kept for the record of the fixed
+   findings C30-1 / C30-2.  Round-robin now advances an atomic per-route counter (fix 3b8fde0): the
+   sequential behaviour modelled by [select] is unchanged.
 
    Restriction (stated in meta/C30.json): backend strings without "[", "]", "%" and whose port part,
    if any, consists of digits or of letters only (no sign); this is what the generator produces. *)
@@ -70,8 +75,8 @@ Definition join_host_port (h : bytes) (port : bytes) : bytes :=
 
 Definition default_port : bytes := [50; 53; 53; 54; 53].   (* "25565" *)
 
-(* the string the removal loop of nextBackend compares (None: netutil.Parse failed -> "continue") *)
-Definition norm_impl (b : bytes) : option bytes :=
+(* PRE-FIX: the string the old removal loop compared (None: netutil.Parse failed -> "continue") *)
+Definition old_norm (b : bytes) : option bytes :=
   match parse_backend b with
   | PErr => None
   | POk h port => Some (if port =? 0 then join_host_port h default_port else b)
@@ -90,11 +95,19 @@ Definition conn_key (route_host backend : bytes) : bytes := go_to_lower route_ho
 Definition opt_beq (a b : option bytes) : bool :=
   match a, b with Some x, Some y => beq_bytes x y | _, _ => false end.   (* a failed parse equals nothing *)
 
-(* remove the first entry whose normalised form equals the selected one's *)
+(* PRE-FIX (before 426c657): remove the first entry whose normalised form equals the selected one's *)
+Fixpoint old_remove (sel : bytes) (l : list bytes) : list bytes :=
+  match l with
+  | [] => []
+  | b :: r => if opt_beq (old_norm b) (old_norm sel) then r else b :: old_remove sel r
+  end.
+
+(* today's loop: "selected := canonicalBackendAddress(backendAddr); keep backend iff
+   canonicalBackendAddress(backend) != selected" *)
 Fixpoint impl_remove (sel : bytes) (l : list bytes) : list bytes :=
   match l with
   | [] => []
-  | b :: r => if opt_beq (norm_impl b) (norm_impl sel) then r else b :: impl_remove sel r
+  | b :: r => if beq_bytes (canon b) (canon sel) then impl_remove sel r else b :: impl_remove sel r
   end.
 
 (* remove every entry that names the same backend *)
@@ -240,7 +253,7 @@ Fixpoint run_ops (remove : bytes -> list bytes -> list bytes) (ops : list op)
       BAttempt ys ended :: run_ops remove r toks s'
   end.
 
-(* triggers of the recorded findings *)
+(* triggers of the recorded (now fixed) findings *)
 Fixpoint has_dup (l : list bytes) : bool :=
   match l with
   | [] => false
